@@ -160,7 +160,9 @@ def explore_env(spec, base_opts, menu, H, D, on_exec, col, merge=True, canon_ext
         prefix = queue.popleft()
         proj, res = absences_from_prefix(prefix, menu)
         opts = dict(base_opts)
-        opts["absence"] = sorted(set(list(base_opts.get("absence", [])) + proj))
+        # a statically given list is passed on literally (it may be unsorted or contain repeated steps on purpose)
+        base_abs = list(base_opts.get("absence", []))
+        opts["absence"] = base_abs + [x for x in proj if x not in base_abs]
         ra = {k: list(v) for k, v in (base_opts.get("res_absence") or {}).items()}
         for k, v in res.items():
             ra[k] = sorted(set(ra.get(k, []) + v))
